@@ -131,6 +131,12 @@ func reentrantCase(e *env, c *mon.Case, a *op, va string, b *op, vb string, j, k
 		return
 	}
 	c.Event("interleavings", 1)
+	if outA.recovered != nil {
+		c.Detail("outer_scalar_vs_inner_stream", diagnose(b.rule, outA.recovered, head(streamB, 32*8)))
+	}
+	if outB.recovered != nil {
+		c.Detail("inner_scalar_vs_outer_stream", diagnose(a.rule, outB.recovered, head(streamA, 32*8)))
+	}
 	c.Detail("judging", "OUTER operation (the inner one ran to completion inside its Read)")
 	okA := checkHealthy(c, a, va, &outA, srcA, 0) != nil
 	c.Detail("judging", "INNER operation (ran to completion inside the outer operation's Read)")
